@@ -2,9 +2,9 @@
 # usage: confirm_seed.sh Cxx   -- confirm every seeded change of a property in its scratch worktree
 # (demo fails with the change, passes without, full suite passes with the change)
 P=$1
-WT=/tmp/wt/$P
+WT=${WTBASE:-/tmp/wt}/$P
 [ -d $WT ] || git -C /repo worktree add -q --detach $WT HEAD
-for M in /tmp/seed/$P/m*; do
+for M in ${SEEDBASE:-/tmp/seed}/$P/m*; do
   [ -f $M/patch.diff ] || continue
   [ -f $M/confirm.json ] && continue
   cd $WT && git checkout -q -- . && git clean -qfd
